@@ -34,7 +34,132 @@ SHORTCUT = """        if new_parent.get_write_uri() == from_uri and new_child_na
             return defer.succeed("redundant rename/relink")
 """
 
+# ---- C20.10: a further modifier class / function that the operations write through
+ENC_ANCHOR = "def _encrypt_rw_uri(writekey, rw_uri):\n"
+MOVE_ANCHOR = "    def move_child_to(self, current_child_namex, new_parent,\n"
+
+
+def _renamer_class(init_overwrite=True, no_overwrite_check=True, only_files_check="existing", stored_md="metadata"):
+    out = "class Renamer:\n"
+    if init_overwrite:
+        out += ("    def __init__(self, node, old_name, new_name, overwrite=True, create_readonly_node=None):\n"
+                "        precondition(overwrite in (True, False, ONLY_FILES), overwrite)\n"
+                "        self.overwrite = overwrite\n")
+    else:
+        out += "    def __init__(self, node, old_name, new_name, create_readonly_node=None):\n"
+    out += ("        self.node = node\n"
+            "        self.old_name = old_name\n"
+            "        self.new_name = new_name\n"
+            "        self.create_readonly_node = create_readonly_node\n"
+            "        self.old_child = None\n"
+            "\n"
+            "    def modify(self, old_contents, servermap, first_time):\n"
+            "        children = self.node._unpack_contents(old_contents)\n"
+            "        if self.old_name not in children:\n"
+            "            raise NoSuchChildError(self.old_name)\n"
+            "        (child, moved_metadata) = children[self.old_name]\n"
+            "        self.old_child = child\n"
+            "        now = time.time()\n"
+            "        metadata = None\n"
+            "        if self.new_name in children:\n")
+    if init_overwrite and no_overwrite_check:
+        out += ("            if not self.overwrite:\n"
+                "                raise ExistingChildError(\"child %s already exists\" % quote_output(self.new_name, encoding='utf-8'))\n")
+    if init_overwrite and only_files_check:
+        out += ("            if self.overwrite == ONLY_FILES and IDirectoryNode.providedBy(%s):\n"
+                "                raise ExistingChildError(\"child %%s already exists as a directory\" %% quote_output(self.new_name, encoding='utf-8'))\n"
+                % ("children[self.new_name][0]" if only_files_check == "existing" else "child"))
+    out += ("            metadata = children[self.new_name][1].copy()\n"
+            "        metadata = update_metadata(metadata, moved_metadata, now)\n"
+            "        if self.create_readonly_node and metadata.get('no-write', False):\n"
+            "            child = self.create_readonly_node(child, self.new_name)\n"
+            "        children[self.new_name] = (child, %s)\n"
+            "        del children[self.old_name]\n" % stored_md +
+            "        new_contents = self.node._pack_contents(children)\n"
+            "        return new_contents\n"
+            "\n\n")
+    return out
+
+
+# the seeded fast path of move_child_to: a rename inside one directory done by one read-modify-write
+RENAME_FASTPATH = SHORTCUT + """
+        if new_parent.get_write_uri() == from_uri:
+            renamer = Renamer(self, current_child_name, new_child_name,
+                              overwrite=overwrite,
+                              create_readonly_node=self._create_readonly_node)
+            d = self._node.modify(renamer.modify)
+            d.addCallback(lambda res: renamer.old_child)
+            return d
+"""
+
+
+def _rename_op(ctor_overwrite=True):
+    return ("    def rename_child(self, current_child_namex, new_child_namex, overwrite=True):\n"
+            "        if self.is_readonly():\n"
+            "            return defer.fail(NotWriteableError())\n"
+            "        current_child_name = normalize(current_child_namex)\n"
+            "        new_child_name = normalize(new_child_namex)\n"
+            "        if new_child_name == current_child_name:\n"
+            "            return defer.succeed(\"redundant rename/relink\")\n"
+            "        renamer = Renamer(self, current_child_name, new_child_name,%s\n"
+            "                          create_readonly_node=self._create_readonly_node)\n"
+            "        d = self._node.modify(renamer.modify)\n"
+            "        d.addCallback(lambda res: renamer.old_child)\n"
+            "        return d\n\n" % (" overwrite=overwrite," if ctor_overwrite else ""))
+
+
+def _rename_op_closure(no_overwrite_check=True):
+    return ("    def rename_child(self, current_child_namex, new_child_namex, overwrite=True):\n"
+            "        if self.is_readonly():\n"
+            "            return defer.fail(NotWriteableError())\n"
+            "        current_child_name = normalize(current_child_namex)\n"
+            "        new_child_name = normalize(new_child_namex)\n"
+            "        if new_child_name == current_child_name:\n"
+            "            return defer.succeed(\"redundant rename/relink\")\n"
+            "        def _rename(old_contents, servermap, first_time):\n"
+            "            children = self._unpack_contents(old_contents)\n"
+            "            if current_child_name not in children:\n"
+            "                raise NoSuchChildError(current_child_name)\n"
+            "            (child, moved_metadata) = children[current_child_name]\n"
+            "            old_md = None\n"
+            "            if new_child_name in children:\n"
+            + ("                if overwrite is False:\n"
+               "                    raise ExistingChildError(\"child already exists\")\n" if no_overwrite_check else "") +
+            "                if overwrite == ONLY_FILES and IDirectoryNode.providedBy(children[new_child_name][0]):\n"
+            "                    raise ExistingChildError(\"child already exists as a directory\")\n"
+            "                old_md = children[new_child_name][1].copy()\n"
+            "            children[new_child_name] = (child, update_metadata(old_md, moved_metadata, time.time()))\n"
+            "            del children[current_child_name]\n"
+            "            return self._pack_contents(children)\n"
+            "        return self._node.modify(_rename)\n\n")
+
+
 MUTANTS = [
+    # ---- C20.10 every modifier that can bind a name honours the overwrite mode (modifiers are discovered, not listed)
+    # the seeded change: same-directory fast path through a new modifier without the ONLY_FILES / directory check
+    M("renamer-fastpath-no-onlyfiles-check", F, ENC_ANCHOR, _renamer_class(only_files_check=None) + ENC_ANCHOR, "C20.10",
+      edits=[(F, SHORTCUT, RENAME_FASTPATH)]),
+    # a new in-place rename operation whose modifier tests the moved child instead of the existing one
+    M("rename-op-onlyfiles-tests-moved-child", F, ENC_ANCHOR, _renamer_class(only_files_check="moved") + ENC_ANCHOR, "C20.10",
+      edits=[(F, MOVE_ANCHOR, _rename_op() + MOVE_ANCHOR)]),
+    M("rename-op-no-overwrite-false-check", F, ENC_ANCHOR, _renamer_class(no_overwrite_check=False) + ENC_ANCHOR, "C20.10",
+      edits=[(F, MOVE_ANCHOR, _rename_op() + MOVE_ANCHOR)]),
+    # the operation has an overwrite mode, its modifier does not know it
+    M("rename-op-modifier-without-overwrite", F, ENC_ANCHOR, _renamer_class(init_overwrite=False) + ENC_ANCHOR, "C20.10",
+      edits=[(F, MOVE_ANCHOR, _rename_op(ctor_overwrite=False) + MOVE_ANCHOR)]),
+    # the modifier knows the mode but the operation does not hand it over
+    M("rename-op-overwrite-not-forwarded", F, ENC_ANCHOR, _renamer_class() + ENC_ANCHOR, "C20.10",
+      edits=[(F, MOVE_ANCHOR, _rename_op(ctor_overwrite=False) + MOVE_ANCHOR)]),
+    # a nested function as modifier, reading the mode from the closure, without the overwrite=False refusal
+    M("rename-op-closure-modifier-no-false-check", F, MOVE_ANCHOR, _rename_op_closure(no_overwrite_check=False) + MOVE_ANCHOR,
+      "C20.10"),
+    # the renamed link keeps the old link's metadata object: its timestamps are not maintained
+    M("rename-op-stores-moved-metadata", F, ENC_ANCHOR, _renamer_class(stored_md="moved_metadata") + ENC_ANCHOR, "C20.10",
+      edits=[(F, MOVE_ANCHOR, _rename_op() + MOVE_ANCHOR)]),
+    # benign: a new operation with a new modifier class / nested function that has both gates
+    M("benign-rename-op-correct-modifier", F, ENC_ANCHOR, _renamer_class() + ENC_ANCHOR, None,
+      edits=[(F, MOVE_ANCHOR, _rename_op() + MOVE_ANCHOR)]),
+    M("benign-rename-op-correct-closure-modifier", F, MOVE_ANCHOR, _rename_op_closure() + MOVE_ANCHOR, None),
     # ---- C20.1 Adder.modify
     M("adder-no-overwrite-check-dropped", F,
       "                if not self.overwrite:\n                    raise ExistingChildError(\"child %s already exists\" % quote_output(name, encoding='utf-8'))\n",
